@@ -40,6 +40,14 @@ func New2DFromJagged
   loop 0 invariant -1 <= rangeindex && inv(arr) && arr.width == width && arr.height == height && fresh(arr.slice)
   loop 0 invariant forall i, j :: {mark(i), mark(j)} mark(i) && mark(j) && 0 <= i && i < width && 0 <= j && j < height ==> arr.getUnchecked(i, j) == ite(j <= rangeindex && j < len(jagged) && i < len(jagged[j]), jagged[j][i], zero(E))
 
+func Array2D.Width
+  property C08
+  ensures result == a.width
+
+func Array2D.Height
+  property C08
+  ensures result == a.height
+
 func Array2D.Get
   property C08
   opt nla uf
